@@ -89,6 +89,14 @@ theorem spec_queue_in_order (fuel lvl : Nat) (ign : List Cls) (subs : Subs) (ops
     (Spec.held fuel lvl ign subs ops).2.2.1.Sublist (bcastsOps ops) :=
   Lemmas.held_queue_sublist fuel lvl ign subs ops
 
+/-- Every queued message passed the ignore test in a context at least as restrictive as the one
+the outermost block was opened in: with well-nested blocks the ignore test repeated at flush time
+(`spec_delay_block`) can never drop a queued message — ignored types are dropped when they are
+broadcast. -/
+theorem spec_queue_not_ignored (fuel lvl : Nat) (ign : List Cls) (subs : Subs) (ops : List Op) :
+    ∀ m ∈ (Spec.held fuel lvl ign subs ops).2.2.1, m.cls ∉ ign :=
+  Lemmas.held_queue_not_ignored fuel lvl ign subs ops
+
 /-- **Nothing is lost.**  A block without `raise` and without ignore blocks (arbitrarily nested
 delay and try blocks allowed) ends normally and queues exactly its broadcasts, in order. -/
 theorem spec_queue_complete (fuel lvl : Nat) (subs : Subs) (ops : List Op)
